@@ -704,6 +704,8 @@ impl ZmtpEngine {
       };
 
       self.last_activity_time = Instant::now();
+      // Any inbound traffic proves the peer is alive, not only a PONG.
+      self.waiting_for_pong = false;
 
       if msg.is_command() {
         // ZMTP/2.0 has no COMMAND frames; receiving one is a protocol violation.
